@@ -5,6 +5,8 @@
 #include "xh_common.hpp"
 #include <xercesc/parsers/SAX2XMLReaderImpl.hpp>
 #include <xercesc/parsers/XercesDOMParser.hpp>
+#include <xercesc/parsers/SAXParser.hpp>
+#include <xercesc/sax/HandlerBase.hpp>
 #include <xercesc/util/XMLEntityResolver.hpp>
 #include <xercesc/util/XMLResourceIdentifier.hpp>
 #include <xercesc/util/SecurityManager.hpp>
@@ -37,6 +39,8 @@ static std::string gRoot;
 static int gIno = -1;
 static std::map<int, std::string> gWatch;                 // wd -> directory
 static std::map<std::string, std::string> gCanary;        // basename -> file content (preloaded)
+static std::map<std::string, std::string> gCanaryPath;    // basename -> absolute path
+static std::string gDocSys;                               // system id of the document being parsed
 static std::vector<std::string> gTrace;
 
 static std::string plain(const XMLCh* s) {
@@ -69,6 +73,7 @@ static void walk(const std::string& dir) {
         std::ifstream in(f, std::ios::binary);
         std::string c((std::istreambuf_iterator<char>(in)), std::istreambuf_iterator<char>());
         gCanary[f.substr(f.rfind('/') + 1)] = c;
+        gCanaryPath[f.substr(f.rfind('/') + 1)] = f;
     }
     for (auto& s : subs) walk(s);
 }
@@ -108,7 +113,9 @@ static std::string baseName(const std::string& s) {
     return p == std::string::npos ? s : s.substr(p + 1);
 }
 
-// mode: 0 = none installed, 1 = returns null, 2 = returns a MemBufInputSource holding the canary's content
+// mode: 0 = none installed, 1 = returns null, 2 = returns a MemBufInputSource holding the canary's content,
+// 3 = like 2 but only for references made from the document entity itself (base URI == document system id) and
+//     with the canary's real path as system id, so that nested relative references point at real files
 class Resolver : public XMLEntityResolver {
 public:
     int mode;
@@ -119,12 +126,13 @@ public:
         const XMLCh* third = schema ? ri->getNameSpace() : ri->getPublicId();
         gTrace.push_back(std::string("R(") + (schema ? "S," : "E,") + plain(ri->getSystemId()) + "," +
                          plain(ri->getBaseURI()) + "," + plain(third) + ")");
-        if (mode != 2) return 0;
+        if (mode != 2 && mode != 3) return 0;
+        if (mode == 3 && narrow(ri->getBaseURI()) != gDocSys) return 0;
         std::string sys = narrow(ri->getSystemId());
         std::string bn = baseName(sys);
         auto it = gCanary.find(bn);
         if (it == gCanary.end()) return 0;
-        std::string id = "mem:" + bn;
+        std::string id = mode == 3 ? gCanaryPath[bn] : "mem:" + bn;
         gTrace.push_back("U(" + id + ")");
         XMLCh* xid = XMLString::transcode(id.c_str());
         MemBufInputSource* src = new MemBufInputSource((const XMLByte*)it->second.data(), it->second.size(), xid);
@@ -188,6 +196,21 @@ public:
     }
 };
 
+class MySax1 : public SAXParser {
+public:
+    ErrInfo info;
+    void error(const unsigned int code, const XMLCh* const domain, const XMLErrorReporter::ErrTypes t,
+               const XMLCh* const text, const XMLCh* const sysId, const XMLCh* const pubId,
+               const XMLFileLoc line, const XMLFileLoc col) override {
+        info.onError(code, domain, t, text);
+        SAXParser::error(code, domain, t, text, sysId, pubId, line, col);
+    }
+    void startEntityReference(const XMLEntityDecl& d) override {
+        info.starts++;
+        SAXParser::startEntityReference(d);
+    }
+};
+
 static const XMLCh* scannerName(const std::string& s) {
     if (s == "IG") return XMLUni::fgIGXMLScanner;
     if (s == "DG") return XMLUni::fgDGXMLScanner;
@@ -207,8 +230,9 @@ static std::string doParse(const std::vector<std::string>& a) {
          stdUri = a[8] == "1";
     bool hasLimit = a[9] != "-";
     unsigned long limit = hasLimit ? strtoul(a[9].c_str(), 0, 10) : 0;
-    int rmode = a[10] == "none" ? 0 : (a[10] == "null" ? 1 : 2);
+    int rmode = a[10] == "none" ? 0 : (a[10] == "null" ? 1 : (a[10] == "top" ? 3 : 2));
     const std::string& docsys = a[11];
+    gDocSys = docsys;
     gTrace.clear();
     drain(false);
     Resolver res(rmode);
@@ -270,6 +294,78 @@ static std::string doParse(const std::vector<std::string>& a) {
     return "tr=" + tr + " fatal=" + fatal + " starts=" + std::to_string(info.starts);
 }
 
+// hist <api> <op;op;...> <docsys0> <docterm0> <docsys1> <docterm1> ...
+//   ops on ONE parser object:  L<n> manager.setEntityExpansionLimit(n) | M1 / M0 install / remove the manager |
+//   S<IG|DG|SG|WF> useScanner | P<i> parse document i.  Answer: one <fatal>:<starts> per parse.
+template <class P> static std::string histOn(P& p, const std::vector<std::string>& ops, const std::vector<std::string>& docs,
+                                             void (*setMgr)(P&, SecurityManager*), void (*useScn)(P&, const XMLCh*)) {
+    SecurityManager sm;
+    std::string out;
+    for (const std::string& op : ops) {
+        if (op.empty()) continue;
+        if (op[0] == 'L') sm.setEntityExpansionLimit(strtoul(op.c_str() + 1, 0, 10));
+        else if (op[0] == 'M') setMgr(p, op == "M1" ? &sm : 0);
+        else if (op[0] == 'S') useScn(p, scannerName(op.substr(1)));
+        else if (op[0] == 'P') {
+            size_t i = strtoul(op.c_str() + 1, 0, 10);
+            if (i >= docs.size()) return "bad-doc-index";
+            p.info = ErrInfo();
+            std::string exc;
+            try { p.parse(docs[i].c_str()); }
+            catch (const SAXParseException&) {}
+            catch (const OutOfMemoryException&) { exc = "OOM"; }
+            catch (const XMLException& e) { exc = "XMLException:" + narrow(e.getType()); }
+            catch (const SAXException&) { exc = "SAXException"; }
+            catch (...) { exc = "unknown"; }
+            std::string fatal = p.info.sawFatal ? p.info.first : (exc.empty() ? "none" : "Thrown:" + exc);
+            for (auto& c : fatal) if (c == ' ' || c == ';') c = '_';
+            if (!out.empty()) out += ";";
+            out += fatal + ":" + std::to_string(p.info.starts);
+        }
+    }
+    return "h=" + (out.empty() ? std::string("-") : out);
+}
+
+static std::string doHist(const std::vector<std::string>& a) {
+    if (a.size() < 3) return "bad-request";
+    std::vector<std::string> ops, docs;
+    { std::string cur; for (char c : a[2]) { if (c == ';') { ops.push_back(cur); cur.clear(); } else cur += c; } ops.push_back(cur); }
+    for (size_t i = 3; i + 1 < a.size(); i += 2) docs.push_back(a[i]);
+    gTrace.clear();
+    try {
+        if (a[1] == "sax") {
+            MySax p;
+            DefaultHandler dh;
+            p.setFeature(XMLUni::fgSAX2CoreNameSpaces, true);
+            p.setFeature(XMLUni::fgSAX2CoreValidation, false);
+            p.setFeature(XMLUni::fgXercesSchema, false);
+            p.setErrorHandler(&dh); p.setContentHandler(&dh); p.setLexicalHandler(&dh);
+            return histOn<MySax>(p, ops, docs,
+                [](MySax& q, SecurityManager* m) { q.setProperty(XMLUni::fgXercesSecurityManager, m); },
+                [](MySax& q, const XMLCh* n) { q.setProperty(XMLUni::fgXercesScannerName, (void*)n); });
+        } else if (a[1] == "dom") {
+            MyDom p;
+            DefaultHandler dh;
+            p.setDoNamespaces(true);
+            p.setValidationScheme(XercesDOMParser::Val_Never);
+            p.setErrorHandler(&dh);
+            return histOn<MyDom>(p, ops, docs,
+                [](MyDom& q, SecurityManager* m) { q.setSecurityManager(m); },
+                [](MyDom& q, const XMLCh* n) { q.useScanner(n); });
+        } else {
+            MySax1 p;
+            HandlerBase hb;
+            p.setDoNamespaces(true);
+            p.setValidationScheme(SAXParser::Val_Never);
+            p.setErrorHandler(&hb); p.setDocumentHandler(&hb);
+            return histOn<MySax1>(p, ops, docs,
+                [](MySax1& q, SecurityManager* m) { q.setSecurityManager(m); },
+                [](MySax1& q, const XMLCh* n) { q.useScanner(n); });
+        }
+    } catch (const XMLException& e) { return "h=Thrown:XMLException:" + narrow(e.getType());
+    } catch (...) { return "h=Thrown:unknown"; }
+}
+
 int main() {
     XMLPlatformUtils::Initialize();
     std::string line;
@@ -278,6 +374,7 @@ int main() {
         std::string r = "bad-request";
         if (a.size() == 2 && a[0] == "root") r = setRoot(a[1]);
         else if (!a.empty() && a[0] == "parse") r = doParse(a);
+        else if (!a.empty() && a[0] == "hist") r = doHist(a);
 #ifdef HAVE_C19_URI
         else if (a.size() == 4 && a[0] == "uri") r = c19_uri(a[1], a[2] == "-" ? "" : a[2], a[3] == "-" ? "" : a[3]);
 #endif
